@@ -73,6 +73,7 @@ type outEval struct {
 	Named    map[string]string // name -> regular expression (full match) of a named language
 	Problems []string
 	active   map[*ssa.Function]int
+	visiting map[*ssa.Phi]bool
 	// Markers: compile every term as one private-use symbol (a placeholder) instead of its guard language; the
 	// skeleton of the output is then compared with a specification over the same placeholders
 	Markers   bool
@@ -198,6 +199,15 @@ func (oe *outEval) strLx(v ssa.Value, b *ssa.BasicBlock, fr *oframe) *lx {
 			return lxCat(oe.strLx(x.X, b, fr), oe.strLx(x.Y, b, fr))
 		}
 	case *ssa.Phi:
+		// a loop-carried string (s = s + …) has no finite expression here: Σ*
+		if oe.visiting[x] {
+			return lxAny()
+		}
+		if oe.visiting == nil {
+			oe.visiting = map[*ssa.Phi]bool{}
+		}
+		oe.visiting[x] = true
+		defer delete(oe.visiting, x)
 		var alts []*lx
 		for i, e := range x.Edges {
 			alts = append(alts, oe.strLx(e, x.Block().Preds[i], fr))
